@@ -154,3 +154,12 @@ Definition env_sop (e : senv) (av : aview) (hs : pvec entity) (so : sop) : senv 
       | None => go (0, 0%Z)
       end
   end.
+
+(* the same operation performed by a lazy insert / remove: nobody looks at the result, so a value
+   handed back (the replaced or the removed one) is destroyed on the spot *)
+Definition env_sop_quiet (e : senv) (av : aview) (hs : pvec entity) (so : sop) : senv :=
+  let '(e', out) := env_sop e av hs so in
+  match out with
+  | WIns (InsOld t) | WOptTok (Some t) => env_cx e' (cx_drop (se_cx e') t)
+  | _ => e'
+  end.
